@@ -21,11 +21,14 @@ ASSUMPTIONS = [
 FETCH_ADD = "std::sync::atomic::Atomic::fetch_add"
 
 
-def is_counter_token(v, field="cas_id"):
-    """does the value mention a fetch_add on self.<field>?"""
+def is_counter_token(v, ctx):
+    """does the value mention a fetch_add on the store's cas counter (the AtomicU64 field of MemoryStore)?"""
+    from rules import roles
+
+    field = roles.get(ctx).ms_cas
     for a in atoms(v):
         if isinstance(a, tuple) and len(a) >= 4 and a[0] == "call" and a[1].endswith("::fetch_add"):
-            if a[3] and a[3][0] == F(P("self"), field):
+            if a[3] and a[3][0] in (F(P("self"), field), ("deref", F(P("self"), field))):
                 return True
     return False
 
@@ -199,11 +202,11 @@ def r3(ctx):
             case = storefacts.set_case(p)
             if rc == "cas!=0" and pres == "absent":
                 # the first token of a lifetime; it must still not collide with later counter-issued ones
-                ok = is_counter_token(stored)
-                rep.check(ok, "set[%s]:token-source" % case, "token issued by cas_id.fetch_add", "a CAS-store on an absent key starts the item's lifetime with token %s (client-chosen): the counter can later issue the same value within this lifetime (4 sets elsewhere; cas-set k cas=4 -> 5; set k -> 5; stale cas-set k cas=5 succeeds)" % short(stored, 100), loc_s(w["event"].span))
+                ok = is_counter_token(stored, ctx)
+                rep.check(ok, "set[%s]:token-source" % case, "token issued by the cas counter's fetch_add", "a CAS-store on an absent key starts the item's lifetime with token %s (client-chosen): the counter can later issue the same value within this lifetime (4 sets elsewhere; cas-set k cas=4 -> 5; set k -> 5; stale cas-set k cas=5 succeeds)" % short(stored, 100), loc_s(w["event"].span))
                 continue
-            ok = is_counter_token(stored)
-            rep.check(ok, "set[%s]:token-source" % case, "token issued by cas_id.fetch_add", "the cas stored over an existing item is %s — a function of the request alone, not of the global counter: it can coincide with a counter-issued token (set->1; cas-set(1)->2; set->2 again; a stale cas-set(2) then succeeds)" % short(stored, 120), loc_s(w["event"].span))
+            ok = is_counter_token(stored, ctx)
+            rep.check(ok, "set[%s]:token-source" % case, "token issued by the cas counter's fetch_add", "the cas stored over an existing item is %s — a function of the request alone, not of the global counter: it can coincide with a counter-issued token (set->1; cas-set(1)->2; set->2 again; a stale cas-set(2) then succeeds)" % short(stored, 120), loc_s(w["event"].span))
     # the counter starts at a non-zero constant (C01.R5) -- checked in C01
     return rep
 
@@ -214,7 +217,8 @@ def r4(ctx):
     subjects = [
         ("append", ["self", "key", "new_record"], F(P("new_record"), "header", "cas")),
         ("prepend", ["self", "key", "new_record"], F(P("new_record"), "header", "cas")),
-        ("add_delta", ["self", "header", "key", "delta", "increment"], F(P("header"), "cas")),
+        ("increment", ["self", "header", "key", "delta"], F(P("header"), "cas")),
+        ("decrement", ["self", "header", "key", "delta"], F(P("header"), "cas")),
     ]
     for meth, args, want in subjects:
         b = f.one(MEMC + "::" + meth)
